@@ -591,6 +591,12 @@ func (sdbh *SemaDBHandlers) HandleSearchPoints(w http.ResponseWriter, r *http.Re
 		Select: []string{"metadata"},
 		Limit:  req.Limit,
 	}
+	// The query is subject to the same checks as one that arrives through v2
+	// (a MessagePack body can carry vector elements that are not finite).
+	if err := sr.Query.Validate(); err != nil {
+		utils.Encode(w, http.StatusBadRequest, map[string]string{"error": err.Error()})
+		return
+	}
 	points, err := sdbh.clusterNode.SearchPoints(collection, sr)
 	if err != nil {
 		utils.Encode(w, http.StatusInternalServerError, map[string]string{"error": err.Error()})
